@@ -406,11 +406,11 @@ package spg
 //@   ensures [C02] nodup:           forall(int(i), int(j), trig(res[i], res[j]), 0 <= i && i < j && j < len(res) ==> res[i] != res[j])
 //@   trusted-ensures [C03] bounded:  len(res) <= 1114240 && len(res) == alphaSize(pub(old(*r)), old(arr(r.RequireSets)), off(r.RequireSets), len(r.RequireSets))
 //@   trusted-ensures [C07] noreq:    (forall(int(j), str(c), 0 <= j && j < len(r.requiredSets) ==> !elems(r.requiredSets[j].s)[c])) ==
-//@        noReq(old(*r), old(arr(r.RequireSets)), off(r.RequireSets), len(r.RequireSets))
+//@        noReq(pub(old(*r)), old(arr(r.RequireSets)), off(r.RequireSets), len(r.RequireSets))
 //@   trusted-ensures [C02,C03] alphabet: forall(str(c), (exists(int(k), 0 <= k && k < len(res) && res[k] == c)) ==
-//@        inA(old(*r), old(arr(r.RequireSets)), off(r.RequireSets), len(r.RequireSets), c))
+//@        inA(pub(old(*r)), old(arr(r.RequireSets)), off(r.RequireSets), len(r.RequireSets), c))
 //@   trusted-ensures [C02,C03] filter: forall(str(pw), (forall(int(j), trig(r.requiredSets[j]), 0 <= j && j < len(r.requiredSets) ==> okreq(j, pw))) ==
-//@        meets(old(*r), old(arr(r.RequireSets)), off(r.RequireSets), len(r.RequireSets), pw))
+//@        meets(pub(old(*r)), old(arr(r.RequireSets)), off(r.RequireSets), len(r.RequireSets), pw))
 
 //@ func (CharRecipe).entropyWithRequired
 //@   trusted
@@ -427,9 +427,9 @@ package spg
 //@        forall(int(k), trig(r.RequireSets[k]), 0 <= k && k < len(r.RequireSets) ==> utf8ok(r.RequireSets[k]))
 //@   requires [C03] utf8: utf8r()
 //@   modifies emitted
-//@   ensures [C07,C06] simple:   noReq(r, arr(r.RequireSets), off(r.RequireSets), len(r.RequireSets)) ==>
+//@   ensures [C07,C06] simple:   noReq(pub(r), arr(r.RequireSets), off(r.RequireSets), len(r.RequireSets)) ==>
 //@        res == real(r.Length) * log2(real(alphaSize(pub(r), arr(r.RequireSets), off(r.RequireSets), len(r.RequireSets))))
-//@   ensures [C07,C06] required: !noReq(r, arr(r.RequireSets), off(r.RequireSets), len(r.RequireSets)) ==>
+//@   ensures [C07,C06] required: !noReq(pub(r), arr(r.RequireSets), off(r.RequireSets), len(r.RequireSets)) ==>
 //@        res == entropyReq(pub(r), arr(r.RequireSets), off(r.RequireSets), len(r.RequireSets))
 //@   ensures [C17] silent: alphaSize(pub(r), arr(r.RequireSets), off(r.RequireSets), len(r.RequireSets)) >= 1 ==> outn == old(outn) && outl == old(outl)
 
@@ -448,8 +448,8 @@ package spg
 //@   define acceptable() = successProb(pub(r), RS(), off(r.RequireSets), len(r.RequireSets)) > 0.0 &&
 //@        rpow(1.0 - successProb(pub(r), RS(), off(r.RequireSets), len(r.RequireSets)), real(MaxTrials)) <= MaxFailRate
 //@   define asize() = alphaSize(pub(r), RS(), off(r.RequireSets), len(r.RequireSets))
-//@   define inAlpha(c) = inA(r, RS(), off(r.RequireSets), len(r.RequireSets), c)
-//@   define ok(pw) = meets(r, RS(), off(r.RequireSets), len(r.RequireSets), pw)
+//@   define inAlpha(c) = inA(pub(r), RS(), off(r.RequireSets), len(r.RequireSets), c)
+//@   define ok(pw) = meets(pub(r), RS(), off(r.RequireSets), len(r.RequireSets), pw)
 //@   requires [C03] utf8:  utf8ok(r.AllowChars) && utf8ok(r.ExcludeChars) &&
 //@        forall(int(k), trig(r.RequireSets[k]), 0 <= k && k < len(r.RequireSets) ==> utf8ok(r.RequireSets[k]))
 //@   requires [C13] A-RES: r.Length <= 4294967295
@@ -464,8 +464,8 @@ package spg
 //@   ensures [C03] shape:        err == nil ==> len(res.tokens) == r.Length && forall(int(j), trig(res.tokens[j]), 0 <= j && j < r.Length ==>
 //@        res.tokens[j].tType == AtomType && clen(res.tokens[j].value) == 1 && inAlpha(res.tokens[j].value))
 //@   ensures [C03,C02] required: err == nil ==> ok(catTok(arr(res.tokens), off(res.tokens), len(res.tokens)))
-//@   ensures [C06] entropy:      err == nil ==> (noReq(r, RS(), off(r.RequireSets), len(r.RequireSets)) ==> res.Entropy == real(r.Length) * log2(real(asize()))) &&
-//@        (!noReq(r, RS(), off(r.RequireSets), len(r.RequireSets)) ==> res.Entropy == entropyReq(pub(r), RS(), off(r.RequireSets), len(r.RequireSets)))
+//@   ensures [C06] entropy:      err == nil ==> (noReq(pub(r), RS(), off(r.RequireSets), len(r.RequireSets)) ==> res.Entropy == real(r.Length) * log2(real(asize()))) &&
+//@        (!noReq(pub(r), RS(), off(r.RequireSets), len(r.RequireSets)) ==> res.Entropy == entropyReq(pub(r), RS(), off(r.RequireSets), len(r.RequireSets)))
 //@   ensures [C02] form:         err == nil ==> 0 <= N[0] && N[0] < MaxTrials && M[0] == asize() && ctr == C[N[0]] + r.Length &&
 //@        forall(int(j), trig(res.tokens[j]), 0 <= j && j < r.Length ==> res.tokens[j].value == E[idx(0, oracle(C[N[0]] + j, M[0]))])
 //@   ensures [C02] alphabet:     err == nil ==> forall(int(k), int(k2), trig(E[idx(0, k)], E[idx(0, k2)]), 0 <= k && k < k2 && k2 < M[0] ==> E[idx(0, k)] != E[idx(0, k2)]) &&
@@ -504,8 +504,8 @@ package spg
 //@   atreturn ghost L[0] = len(s)
 //@   ensures [C03] joined: res == joinseg(G, 0, L[0])
 //@   ensures [C03] sorted: forall(int(i), int(j), trig(G[idx(0, i)], G[idx(0, j)]), 0 <= i && i < j && j < L[0] ==> strlt(G[idx(0, i)], G[idx(0, j)]))
-//@   ensures [C03] exact-in:  forall(int(k), trig(G[idx(0, k)]), 0 <= k && k < L[0] ==> inA(r, arr(r.RequireSets), off(r.RequireSets), len(r.RequireSets), G[idx(0, k)]))
-//@   ensures [C03] exact-all: forall(str(c), inA(r, arr(r.RequireSets), off(r.RequireSets), len(r.RequireSets), c) ==> exists(int(k), 0 <= k && k < L[0] && G[idx(0, k)] == c))
+//@   ensures [C03] exact-in:  forall(int(k), trig(G[idx(0, k)]), 0 <= k && k < L[0] ==> inA(pub(r), arr(r.RequireSets), off(r.RequireSets), len(r.RequireSets), G[idx(0, k)]))
+//@   ensures [C03] exact-all: forall(str(c), inA(pub(r), arr(r.RequireSets), off(r.RequireSets), len(r.RequireSets), c) ==> exists(int(k), 0 <= k && k < L[0] && G[idx(0, k)] == c))
 //@   ensures [C03] chars:  forall(int(k), trig(G[idx(0, k)]), 0 <= k && k < L[0] ==> clen(G[idx(0, k)]) == 1)
 
 //@ func sfWrap
@@ -514,8 +514,8 @@ package spg
 //@   requires [C13] A-RES: r.Length <= 4294967295
 //@   modifies pos, ctr, emitted
 //@   ensures [C16,C06] entropy: (res0 == "" && res1 == 0.0) ||
-//@        ((noReq(r, arr(r.RequireSets), off(r.RequireSets), len(r.RequireSets)) ==> res1 == real(r.Length) * log2(real(alphaSize(pub(r), arr(r.RequireSets), off(r.RequireSets), len(r.RequireSets))))) &&
-//@         (!noReq(r, arr(r.RequireSets), off(r.RequireSets), len(r.RequireSets)) ==> res1 == entropyReq(pub(r), arr(r.RequireSets), off(r.RequireSets), len(r.RequireSets))))
+//@        ((noReq(pub(r), arr(r.RequireSets), off(r.RequireSets), len(r.RequireSets)) ==> res1 == real(r.Length) * log2(real(alphaSize(pub(r), arr(r.RequireSets), off(r.RequireSets), len(r.RequireSets))))) &&
+//@         (!noReq(pub(r), arr(r.RequireSets), off(r.RequireSets), len(r.RequireSets)) ==> res1 == entropyReq(pub(r), arr(r.RequireSets), off(r.RequireSets), len(r.RequireSets))))
 //@   ensures [C04] monotone: ctr >= old(ctr) && pos >= old(pos)
 
 //@ func NewSFFunction
